@@ -102,7 +102,7 @@ CHECKS = {
 	'C09': dict(
 		category='exploration',
 		technique='Hypothesis-generated tie-heavy distance rows and tie-heavy databases vs sort-by-(distance, index) oracle; subprocess differential across NumPy CPU-dispatch settings and core counts',
-		text='closest_genomes is compared with the (distance, reference order) prefix for generated rows with heavy ties (lengths up to 1000, all report_closest shapes), for generated databases with identical/equidistant genomes (one QueryParams object reused across databases of different size must come back unchanged; the JSON and CSV exports of every such result are parsed and each listed entry's distance and matched taxon compared with the model), and the JSON/CSV outputs of real `gambit query` subprocesses are compared across NPY_DISABLE_CPU_FEATURES settings and -c values (byte-identical lists, CSV and JSON name the same closest genome).',
+		text='closest_genomes is compared with the (distance, reference order) prefix for generated rows with heavy ties (lengths up to 1000, all report_closest shapes), for generated databases with identical/equidistant genomes (one QueryParams object reused across databases of different size must come back unchanged; the JSON and CSV exports of every such result are parsed and the distance and matched taxon of each listed entry compared with the model), and the JSON/CSV outputs of real `gambit query` subprocesses are compared across NPY_DISABLE_CPU_FEATURES settings and -c values (byte-identical lists, CSV and JSON name the same closest genome).',
 		note='CPU dispatch is varied on this sandbox CPU only. One genuine defect found and repaired (unstable argsort).',
 		design='DESIGN.md §4 C09',
 	),
